@@ -180,7 +180,7 @@ def stress(ctx):
             continue
         jobs.append((rng.choice([d, d, rng.choice(dialects)]), rng.choice(["raw", "jinja"]), rng.choice([None, "core"]), gen.mutate_sql(rng, t)[:6000], {}))
     from vlib.par import robust_map
-    res = robust_map(_stress, jobs, 14, ctx.budget(60, 400))
+    res = robust_map(_stress, jobs, 14, ctx.budget(60, 150))
     for job, r in zip(jobs, res):
         d, templ, rules, sql, extra = job
         r.setdefault("codes", []); r.setdefault("raised", None)
@@ -236,9 +236,9 @@ def run(ctx, prove=True):
     ctx.assumptions += ["StagesRaiseOwnErrors: templater, lexer and parser raise only their own error classes (sampled by the stress runs; the theorem's hypothesis)"]
     ctx.partial += ["what the engines raise on an input is not modelled; only the funnel around them is"]
     import time
-    t = time.time(); funnel_correspondence(ctx); ctx.extra["t_funnel"] = round(time.time() - t, 1); print("funnel", ctx.extra["t_funnel"], file=sys.stderr, flush=True)
-    t = time.time(); stress(ctx); ctx.extra["t_stress"] = round(time.time() - t, 1); print("stress", ctx.extra["t_stress"], file=sys.stderr, flush=True)
-    t = time.time(); cli_runs(ctx); ctx.extra["t_cli"] = round(time.time() - t, 1); print("cli", ctx.extra["t_cli"], file=sys.stderr, flush=True)
+    t = time.time(); funnel_correspondence(ctx); ctx.extra["t_funnel"] = round(time.time() - t, 1)
+    t = time.time(); stress(ctx); ctx.extra["t_stress"] = round(time.time() - t, 1)
+    t = time.time(); cli_runs(ctx); ctx.extra["t_cli"] = round(time.time() - t, 1)
     t = time.time()
     fixchecks.run_universe(ctx, PROP, ["all", "layout", "capitalisation", "layout_alt", "cap_snake"], ctx.budget(80, 10 ** 9), WHAT)
     ctx.extra["t_universe"] = round(time.time() - t, 1)
